@@ -48,6 +48,8 @@ func (o cOp) String() string {
 		return fmt.Sprintf("%s(%d)", o.Kind, o.N)
 	case "mount":
 		return fmt.Sprintf("mount(blob %d from %s)", o.N, o.Tag)
+	case "freshPut":
+		return fmt.Sprintf("freshPut(fresh%d,%s,F%d)", o.N, o.Tag, o.Man)
 	}
 	return o.Kind
 }
@@ -189,6 +191,11 @@ func (u *cUniverse) execOp(srv *olareg.Server, o cOp) (int, string, string) {
 			// fell back to an upload session: finish it
 			r = doReq(srv, "PUT", r.hdr.Get("Location")+"&digest="+url.QueryEscape(dig("sha256", b)), b, nil)
 		}
+	case "freshPut":
+		// first index write to a repository nobody has touched yet: a manifest that needs no blobs, by tag
+		body := freshBody(o.Man)
+		r = doReq(srv, "PUT", fmt.Sprintf("/v2/fresh%d/manifests/%s", o.N, o.Tag), body, hdr("Content-Type", mtIndex))
+		out = dig("sha256", body)
 	case "collect":
 		_ = srv.VerifGC(u.repo)
 		r.code = 200
@@ -218,6 +225,14 @@ func (u *cUniverse) execOp(srv *olareg.Server, o cOp) (int, string, string) {
 		p = fmt.Sprint(r.panicV)
 	}
 	return r.code, out, p
+}
+
+var freshTags = []string{"f1", "f2", "f3"}
+
+// freshBody: child-less OCI indexes that differ in one annotation (pushable into an empty repository).
+func freshBody(i int) []byte {
+	raw, _ := buildIndex(mtIndex, nil, nil, "", map[string]string{"fresh": fmt.Sprint(i)})
+	return raw
 }
 
 type cProgram struct {
@@ -267,6 +282,10 @@ func genCProgram(t *rapid.T, kinds []string, maxClients, maxOps int) cProgram {
 			case "mount":
 				o.N = rapid.IntRange(0, 7).Draw(t, "blob")
 				o.Tag = rapid.SampledFrom([]string{"self", "self", "fresh0", "fresh1", "nosuchrepo"}).Draw(t, "from")
+			case "freshPut":
+				o.N = rapid.IntRange(0, 1).Draw(t, "freshRepo")
+				o.Tag = rapid.SampledFrom(freshTags).Draw(t, "tag")
+				o.Man = rapid.IntRange(0, 3).Draw(t, "freshBody")
 			case "newRepoPush", "newRepoRead", "newRepoTags":
 				o.N = rapid.IntRange(0, 2).Draw(t, "freshRepo")
 			case "getRefsFiltered":
